@@ -35,7 +35,7 @@ META = {
         "thorough": "10 workspaces",
     },
     "stubs": ["pyhf.writexml.uproot / pyhf.readxml.uproot -> RootStore", "pyhf.writexml.str / pyhf.readxml.float -> exact token round trip", "pyhf.writexml.np -> element-wise stand-in"],
-    "outside_claim": ["uproot/ROOT serialisation (float width, TH1 conventions)", "XML text encoding, the DTD", "cli json2xml/xml2json wrappers"],
+    "outside_claim": ["unconstrained (normfactor) parameters whose own name starts with 'alpha_' or 'gamma_': the ROOT naming convention cannot tell them from constrained ones (format-dictated)", "uproot/ROOT serialisation (float width, TH1 conventions)", "XML text encoding, the DTD", "cli json2xml/xml2json wrappers"],
 }
 
 
@@ -53,6 +53,11 @@ def _workspaces():
     Wk.append(("lumi-fixed", [channel("B", sample("s", 2, normfactor(), lumi()), sample("b", 2, lumi(), staterror("staterror_B", 2))),
                               channel("A", sample("b", 1, lumi(), histosys("h", 1)))],
                [dict(lcfg, fixed=True)], "mu"))
+    # parameter names that contain the prefixes the XML format adds to constant parameters
+    Wk.append(("prefix-names", [channel("SR", sample("sig", 2, normfactor(), normsys("alpha_s")),
+                                          sample("bkg", 2, histosys("jet_alpha_x", 2), normsys("gamma_like"), normfactor("nf_alpha_")))],
+               [{"name": "alpha_s", "fixed": True}, {"name": "jet_alpha_x", "fixed": True}, {"name": "gamma_like", "fixed": True},
+                {"name": "nf_alpha_", "fixed": True, "inits": ["$x"], "bounds": [["$x", "$x"]]}], "mu"))
     # a sample whose yield may be negative or zero in one bin (interference / negative-weight templates)
     neg = sample("interf", 2, staterror("staterror_SR", 2))
     neg["data"] = ["$x", "$n"]
